@@ -829,6 +829,9 @@ def c12(tier):
         if rnd.random() < 0.3: ast = ('cat', ast, ('star', rxc.rr.gen_ast(rnd, 1, rxc.rr.ALPHA_SMALL)))
         t = rxc.rr.finish_text(rxc.rr.render(ast))
         if t is not None and rxc.rr.positions_count(ast) <= 900: reps.append((ast, t))
+    # repetition counts beyond the analyzer's 32-bit arithmetic (recorded finding): the predicted size wraps around, construction must still fail loudly
+    for t in (b'a{4294967297}', b'(ab){2147483649}', b'[0-9]{00004294967296}x'):
+        reps.append((rxc.rr.parse(t), t))
     merge(ck, common.pmap(rxc.judge_batch, [('C12', c, False, 'clang1') for c in chunks(pats + reps, 3000)]))
     ct = rxc.gen_patterns(rnd, 32 if q else 600, max_positions=30) + [x for x in reps if rxc.rr.positions_count(x[0]) <= 60][: (8 if q else 100)]
     merge(ck, common.pmap(rxc.judge_ct, [('C12', c, 'clang', common.seed() + i) for i, c in enumerate(chunks(ct, 8))]))
